@@ -7,7 +7,7 @@ CONSTANTS
   TermsOf <- Terms
   Matches <- Match
   IsWild <- Wild
-  MaxOps = 6
+  MaxOps = 5
   FixDelete = TRUE
   FixRegistry = TRUE
 INVARIANTS NoLeak ExactByName Exact TypeOK
